@@ -52,7 +52,7 @@ def shards(tier, seed):
     for L in ((4,) if tier == "quick" else (3, 4, 5)):
         for mi in range(len(MOTIF_SETS)):
             out.append(dict(name="scanN/L%d/m%d" % (L, mi), kind="scan", L=L, mi=mi, N=True, numba_threads=2, weight=5 ** L))
-    for L in ((130, 300, 33000) if tier == "quick" else (130, 300, 33000, 70000)):
+    for L in ((130, 300, 33000, (1 << 20) + 300) if tier == "quick" else (130, 300, 33000, 70000, (1 << 20) + 300, (1 << 21) + 77)):
         out.append(dict(name="planted/L%d" % L, kind="planted", L=L, numba_threads=4, weight=L))
     out.append(dict(name="history", kind="history", numba_threads=2, weight=800))
     out.append(dict(name="fasta", kind="fasta", numba_threads=2, weight=500))
@@ -71,6 +71,11 @@ def build(cols, k):
 
 
 def motif_dict(mi):
+    # motif names are the user's: in two of the sets a motif is literally called '<other name>-rc' (the suffix fimo uses internally
+    # for the reverse-complement PWMs) and names repeat a prefix of one another
+    if mi in (2, 4):
+        names = ["GATA", "GATA-rc", "GATA-rc-rc", "GA"]
+        return {names[k]: torch.from_numpy(build(cols, k)) for k, cols in enumerate(MOTIF_SETS[mi])}
     return {"m%d_%s" % (k, "".join(map(str, cols))): torch.from_numpy(build(cols, k)) for k, cols in enumerate(MOTIF_SETS[mi])}
 
 
@@ -319,19 +324,24 @@ def run_planted(rec, sh, tier, seed):
             j = w // 2
             pw[:, j] = 0.25                                 # an uninformative column
         motifs.append(("w%d_%d" % (w, k), pw, cons))
-    nseq = 3 if L <= 1000 else 1
+    nseq = 3 if (L <= 1000 or L > 100000) else 1
     seqs = []
     for si in range(nseq):
         codes = rs.randint(0, 4, L)
         if L <= 1000:
             codes[rs.randint(0, L, 3)] = -1                 # a few unknown characters
-        offs_all = [0, 1, 126, 127, 128, 254, 255, 256, 32766, 32767, 32768, 65534, 65535, 65536]
+        offs_all = [0, 1, 126, 127, 128, 254, 255, 256, 32766, 32767, 32768, 65534, 65535, 65536] + \
+                   [(1 << 20) + dd for dd in (-21, -12, -4, -1, 0, 3)] + [(1 << 21) + dd for dd in (-9, -2, 0)]
         for k, (name, pw, cons) in enumerate(motifs):
             w = len(cons)
             for oi, o in enumerate(offs_all + [L - w - 1, L - w]):
                 if o < 0 or o + w > L or (oi + k + si) % 3:
                     continue
                 codes[o:o + w] = cons if (oi + si) % 2 == 0 else (3 - cons[::-1])       # forward or reverse-complement instance
+        if L > (1 << 20):
+            # one motif per sequence planted so that its window STARTS in the last w-1 positions before the 2**20 boundary
+            name, pw, cons = motifs[si % 3]
+            codes[(1 << 20) - 1:(1 << 20) - 1 + len(cons)] = cons
         seqs.append(codes)
     X = ohe(numpy.stack(seqs), 4)
     d = env.scratch_dir("c12p")
@@ -342,12 +352,12 @@ def run_planted(rec, sh, tier, seed):
                 fh.write(">seq%d\n%s\n" % (si, "".join("ACGT"[v] if v >= 0 else "N" for v in c)))
         names = ["seq%d" % i for i in range(nseq)]
         n_hits = n_last = 0
-        for nm in ((8, 3) if tier == "quick" else (8, 5, 3, 1)):
+        for nm in (((8, 3) if L < 100000 else (3,)) if tier == "quick" else (8, 5, 3, 1)):
             sub = motifs[:nm]
             md = {n: torch.from_numpy(p) for n, p, _ in sub}
             mlist = [(n, p) for n, p, _ in sub]
             mnames = [n for n, _, _ in sub]
-            for thr in (1e-2, 1e-4, 1e-6):
+            for thr in ((1e-2, 1e-4, 1e-6) if L < 100000 else (1e-4,)):
                 for rc in (True, False):
                     case = dict(fn="fimo", L=L, n_sequences=nseq, n_motifs=nm, widths=widths[:nm], threshold=thr, bin_size=0.1, reverse_complement=rc,
                                 input="tensor (planted motifs)", seed=seed)
